@@ -148,7 +148,7 @@ def run_check(prop, tier, seed, runs=None, workers=None, wall_cap=None):
         payload = replay or {"property": prop, "class": klass, "violation": first, "run_seed": res["run_seed"]}
         payload["hash_seed"] = res.get("hash_seed_used")
         with open(path, "w") as handle:
-            json.dump(payload, handle, indent=1, sort_keys=True)
+            json.dump(payload, handle, indent=1)
         verified = verify_replay(prop, path) if replay else None
         violation_lines.append("VIOLATION property=%s replay=%s" % (prop, path))
         print("  class=%s run=%s seed=%s replay_verified=%s\n  %s\n  %s" % (
@@ -160,7 +160,7 @@ def run_check(prop, tier, seed, runs=None, workers=None, wall_cap=None):
         payload = hashseed_replay(prop, seed, tier, mismatches[0], findings)
         payload["runs_with_different_logs"] = mismatches
         with open(path, "w") as handle:
-            json.dump(payload, handle, indent=1, sort_keys=True)
+            json.dump(payload, handle, indent=1)
         violation_lines.append("VIOLATION property=%s replay=%s" % (prop, path))
         print("  class=%s.hash-seed: %d of %d runs gave different event logs under PYTHONHASHSEED %s and %s (runs %r); replay minimised in %d steps"
               % (prop, len(mismatches), pairs_compared, procs.HASH_SEEDS[0], procs.HASH_SEEDS[1], mismatches[:10], payload.get("minimise_steps", 0)), flush=True)
@@ -174,7 +174,7 @@ def run_check(prop, tier, seed, runs=None, workers=None, wall_cap=None):
             path = os.path.join(REPLAY_DIR, "%s-abortenum-%s.json" % (prop, payload["scenario"]["run_seed"]))
             os.makedirs(os.path.dirname(path), exist_ok=True)
             with open(path, "w") as handle:
-                json.dump(payload, handle, indent=1, sort_keys=True)
+                json.dump(payload, handle, indent=1)
             violation_lines.append("VIOLATION property=%s replay=%s" % (prop, path))
             print("  class=%s (exhaustive abort enumeration, k=%s of %s) replay_verified=%s\n  %s" % (
                 payload["class"], payload["scenario"]["enum"]["k"], payload["scenario"]["enum"]["which"],
